@@ -13,6 +13,11 @@ CHECKS = {
         text="LU.tla executes the elimination action by action (PivotSearch, Swap, Scale, Update, ZeroPivot, Assemble3, Assemble2) in exact scaled-integer arithmetic on inputs constructed to force each of the m! interchange sequences (m <= 4 quick, 5 thorough), three shapes per m, singular columns included; TLC checks PA=LU, A=L2U, unit-lower/|mult|<=1, upper, permutation and raise-iff-singular as invariants; every terminal state is replayed into the code in both modes and compared exactly. Random float/integer/rank-deficient inputs are validated by LUTrace.tla (permutation, L2 = P^T L row map, residual units).",
         note="Trusted: harness projection, numpy-quaternion conversions, TLC. Exact family has denominator-4 entries and unit pivots; other inputs are covered by residual bounds (4096 growth-aware units).",
         design_ref="5/C07"),
+    "C04": dict(
+        technique="abstract Q-GMRES restart-cycle machine (QGMRES.tla) model-checked by TLC; every real solve recorded as Start/Cycle*/Return (+Pair/Opt) and validated by QGMRESTrace.tla",
+        text="QGMRES.tla models cycles, lucky breakdown at the grade, stop rule, cap, preconditioner (incl. swallowed LU fault) and zero rhs; TLC checks Truthful, ConvSound, HistMono, AtMostN, ZeroRhsZero, PrecIndependent on all behaviours (N <= 4 quick / 6 thorough). The harness builds systems of every grade 1..N (Hermitian spectra with repeats from exact unitary similarity, scaled/quaternion-scalar identity, identity+rank1, triangular, repeated diagonal, unitary, generic), all caps 0..N/None, both preconditioners, dense/sparse, scalings, b=0, and validates each run's trace: property clauses give VIOLATION, mechanism mismatches (cycle order, return enabled, iterations = grade) give DRIFT. Per-cycle optimality is checked against an independent complex-adjoint least-squares oracle.",
+        note="Trusted: oracle arithmetic (numpy, complex adjoint), grade computation, Lg quantisation with stated slacks (converged => true residual <= 4 tol x cond for preconditioned runs; optimality ratio <= 1+2^-7). n <= 6, cond <= ~1e3.",
+        design_ref="5/C04"),
 }
 
 NOT_YET = "check not built yet in this round; see DESIGN.md section 5"
